@@ -48,6 +48,7 @@ type csvDoc struct {
 	cells                          [][]string
 	headers                        bool // header row written in the document (false: passed through csv.Headers)
 	delim                          byte
+	headersWithOptions             bool
 	crlf                           bool
 	finalNL                        bool
 	quoting                        int // 0 needed, 1 always, 2 random
@@ -208,6 +209,11 @@ func genDoc(rng *rand.Rand, class string) *csvDoc {
 		d.names[rng.Intn(ncols)] = ""
 	case 2:
 		d.headers = false
+	}
+	if d.headers && (d.rename || d.alias != "") && rng.Intn(3) == 0 {
+		// the names come from csv.Headers instead of the document: alias and renaming apply to them as well
+		d.headers = false
+		d.headersWithOptions = true
 	}
 	for r := 0; r < nrows; r++ {
 		row := make([]string, ncols)
